@@ -3,9 +3,9 @@ From Msm Require Import Run Lemmas_Misc Lemmas_Rtc.
 
 (* the outer transition leaving an exit point can fire only while that exit point is an active state of the
    submachine: otherwise the row does nothing at all (no guard, no behaviour, code 0) *)
-Theorem C09_exit_row_needs_active_exit_point_back : forall cf mc children fuel r x ev rn g nxt p,
+Theorem C09_exit_row_needs_active_exit_point_back : forall cf contained mc children fuel r x ev rn g nxt p,
   tgt_state (r_tgt x) = Some nxt -> r_exitpt x = Some p -> exit_pt_active rn (r_src x) p = false ->
-  exec_row cf mc children fuel r x ev rn g = (Some HANDLED_FALSE, rn, g).
+  exec_row cf contained mc children fuel r x ev rn g = (Some HANDLED_FALSE, rn, g).
 Proof. exact back_exitpt_inactive. Qed.
 Print Assumptions C09_exit_row_needs_active_exit_point_back.
 
@@ -22,9 +22,9 @@ Print Assumptions C09_exit_point_active_means.
 
 (* entering an exit point: its entry behaviour, then the converted event (exit point's event type, original payload)
    goes to the enclosing machine *)
-Theorem C09_exit_point_forwards_converted_event : forall cf mc children fuel s ev ety rn g,
+Theorem C09_exit_point_forwards_converted_event : forall cf contained mc children fuel s ev ety rn g,
   child children s = None -> s_kind (get_state mc s) = KExitPt ety -> g_plan g = [] ->
-  exec_entry cf mc children fuel s ev EkPlain rn g =
+  exec_entry cf contained mc children fuel s ev EkPlain rn g =
     (Some tt, rn, Glob (Cb KEntry [] s ev false (act rn) :: g_tr g) (S (g_cb g)) [] (g_val g)
                        (g_up g ++ [Evt ety (e_pay ev)]) (g_bad g)).
 Proof. exact back_enter_exit_point. Qed.
